@@ -9,6 +9,7 @@
 From SF Require Import Base.Prelude Gen.Generated Unsized.Types Unsized.Parse Unsized.Machine Unsized.Ops.
 From SF Require Import Unsized.Proofs.EncodeParse Unsized.Proofs.Flat.
 From SF Require Import Unsized.Proofs.Layout Unsized.Proofs.Path Unsized.Proofs.Resize Unsized.Proofs.History Unsized.Proofs.History2.
+From SF Require Import Unsized.Proofs.History3 Unsized.Proofs.Enums.
 
 (* the full operation set (stores, set_len, element-level insert / remove / clear of lists of unsized elements) *)
 Theorem C02_all_ops_canonical_after_any_history :
@@ -19,6 +20,21 @@ Theorem C02_all_ops_canonical_after_any_history :
 Proof.
   intros ovf t h v s top pi0 v' R Hn Ho.
   destruct (xrun_refines ovf t h v s top pi0 v' R Hn Ho) as (s' & top' & pi' & Hrun & R' & _).
+  exists s', top'. split; [exact Hrun|].
+  destruct (repf_observable ovf pi' t v' s' top' R') as (_ & Hb & Hl & _). auto.
+Qed.
+
+(* EVERY operation the theory knows, in any interleaving: list operations, stores, set_len, element-level operations of lists
+   of unsized elements, the keyed views (Set / Map / UnsizedMap through the binary search), whole-value replacement
+   (set_from_owned) and variant switches of generated enums (set_<variant>(DefaultInit)) *)
+Theorem C02_canonical_after_any_full_history :
+  forall ovf t h v s top pi0 v' obss,
+    RepF pi0 t v s top -> m_refuse s <> 1 -> orunZ (m_cap s) t v h = Some (v', obss) ->
+    exists s' top', mrunZ ovf t s top h = Ok (s', top', obss) /\
+      ztake (m_len s') (m_mem s') = encode t v' /\ m_len s' = byte_size t v'.
+Proof.
+  intros ovf t h v s top pi0 v' obss R Hn Ho.
+  destruct (zrun_refines ovf t h v s top pi0 v' obss R Hn Ho) as (s' & top' & pi' & Hrun & R' & _).
   exists s', top'. split; [exact Hrun|].
   destruct (repf_observable ovf pi' t v' s' top' R') as (_ & Hb & Hl & _). auto.
 Qed.
